@@ -101,6 +101,19 @@ CLAIMED = {
         "correspondence); Unicode isprintable table (parameter); eval() with empty globals as used by tempren.",
         "DESIGN.md §7 C14",
     ),
+    "C13": (
+        "Lean 4 theorems on Python call binding and the context rule (exact characterisation of accepted calls) + exhaustive enumeration of the live registry: help signature parsed, cross-checked with inspect, every call shape compiled",
+        "Proved in Lean for every signature (positional-or-keyword, *args, keyword-only parameters, defaults, "
+        "require_context): a call binds iff not too many positional arguments, every name declared, none given twice, "
+        "every required parameter supplied; naming all documented parameters binds; positional and named passing are "
+        "interchangeable; the printed context marker determines the context rule. Every tag of the live registry "
+        "(built-in, ad-hoc, alias) is enumerated each run: its --help signature is parsed into a Sig, cross-checked "
+        "with inspect.signature/require_context of the instantiated class, and all call shapes are compiled and "
+        "compared with the model's verdict; rejected shapes must be template errors (exit 3, tree untouched).",
+        "Trusted: Lean kernel; CPython call binding as modelled; argument values from a searched baseline "
+        "(value-caused rejections are recognised by message and skipped).",
+        "DESIGN.md §7 C13",
+    ),
 }
 
 NOT_YET = "check not built yet in this snapshot of /verif (work in progress, see DESIGN.md §7)"
